@@ -44,6 +44,26 @@ func (w *World) Regimes() map[string][]string {
 	// normal seats are elected producers; the free blocks lie in [CRVotingStartHeight, new-CR era)
 	// where illegal-block evidence forces an arbiter change under the DPoS 1.0 reward rules
 	out["public"] = append([]string{}, late[:10]...)
+	// public + illegal-proposal evidence against an elected producer + its ActivateProducer
+	// request: the producer is illegal with a pending activation request when the free blocks
+	// start (a second evidence against it is admissible)
+	{
+		probe := w.NewInst()
+		for _, op := range out["public"] {
+			probe.Apply(op)
+		}
+		x := -1
+		for i := 0; i < NProducers; i++ {
+			if p := probe.prod(i); p != nil && probe.A.IsArbitrator(p.NodePublicKey()) {
+				x = i
+				break
+			}
+		}
+		probe.Close()
+		if x >= 0 {
+			out["illegalact"] = append(append([]string{}, out["public"]...), fmt.Sprintf("illegal:%d", x), fmt.Sprintf("act:%d", x))
+		}
+	}
 	// late + DPoS v2 reward balances present and one claim of voter 0 pending (its real-withdraw
 	// transaction not yet mined): the free blocks claim and pay out, also both in one block
 	out["claim"] = append(append([]string{}, late...), "seedreward", "claim:0", "empty", "empty")
@@ -63,7 +83,7 @@ func (w *World) Regimes() map[string][]string {
 }
 
 // RegimeNames lists the regimes in exploration order.
-var RegimeNames = []string{"early", "late", "inactive", "canceled", "v2", "v2active", "returned", "v2ready", "public", "claim"}
+var RegimeNames = []string{"early", "late", "inactive", "canceled", "v2", "v2active", "returned", "v2ready", "public", "claim", "illegalact"}
 
 // StateCanonOpts are the canonicalisation options under which two DPoS states are compared.
 var StateCanonOpts = &CanonOpts{
